@@ -555,6 +555,24 @@ def m_extend(interp, st, selfv, args, kwargs):
     h = st.heap[selfv.d]
     if not h.fresh:
         st.mods.append(("extend", repr(selfv)))
+    x = args[0]
+    if x.kind == "sym" and x.shadow is None and isinstance(h, HList) and h.items is None:
+        # extend of a symbolic list by a symbolic sequence of unknown length: the new content is the old one followed by the
+        # elements of the argument (the argument is assumed to be a sized sequence: tuple / list)
+        xt = interp.term(st, x)
+        n = T.F_len(xt)
+        st.assume(n >= 0)
+        old_arr, old_ln = h.arr, h.ln
+        interp.ctx.fresh += 1
+        new_arr = z3.Array(f"ext!{interp.ctx.fresh}", z3.IntSort(), T.Val)
+        j = z3.Int("j_ext")
+        st.assume(z3.ForAll([j], z3.Select(new_arr, j) == z3.If(j < old_ln, z3.Select(old_arr, j), T.F_at(xt, j - old_ln)),
+                            patterns=[z3.Select(new_arr, j)]))
+        h.arr = new_arr
+        h.ln = old_ln + n
+        interp.ctx.assume_note("list.extend(xs) with a symbolic xs: xs is a sized sequence (tuple / list) whose iteration yields xs[0..len)")
+        yield st, ("ok", const(None))
+        return
     for s, r in iterate_concrete(interp, st, args[0]):
         if r[0] != "ok":
             yield s, r
